@@ -543,6 +543,7 @@ def collect():
              os.path.join(vlib.REPO, 'supervisor', 'rpcinterface.py'): tr}
     classmap = {}
     infos = []
+    docparams = []
     signatures = {}
     upd = None
     for ns in sorted(namespaces):
@@ -583,6 +584,13 @@ def collect():
             else:
                 g = ('GNone', [], '')
             infos.append((ns, name, '%s.%s' % (cls.__name__, defname), amin, amax, g))
+            doc = ast.get_docstring(fn, clean=False)
+            need(doc is not None, 'public method %s.%s has no docstring' % (ns, name))
+            tags = [ln.split() for ln in doc.split('\n') if ln.strip().startswith('@')]
+            need(all(t[0] in ('@param', '@return') and len(t) >= 2 for t in tags),
+                 '%s.%s: unrecognised documentation tag' % (ns, name))
+            need(len([t for t in tags if t[0] == '@return']) == 1, '%s.%s: not exactly one @return tag' % (ns, name))
+            docparams.append(('%s.%s' % (ns, name), len([t for t in tags if t[0] == '@param'])))
         for name in public:
             need(live.get(name) == 'BoundMethod', 'public definition %s.%s is not a live bound method' % (ns, name))
     need(upd is not None, 'no _update found')
@@ -605,7 +613,8 @@ def collect():
     need(len(callfn) == 1 and ast.unparse(_strip_doc(callfn[0].body)[0]) == 'return traverse(self.rpcinterface, method, params)',
          'supervisor_xmlrpc_handler.call shape')
     return dict(t_root=t_root, t_mroot=t_mroot, faults=faults, moods=moods, infos=infos, upd=upd, trav=trav, mc=mc,
-                refs=refs, dynamic=dynamic, docs=docs, listed=listed, signatures=signatures, universe=sorted(universe))
+                refs=refs, dynamic=dynamic, docs=docs, listed=listed, signatures=signatures, universe=sorted(universe),
+                docparams=docparams)
 
 
 def render(d):
@@ -641,6 +650,9 @@ def render(d):
             cstr(ns), cstr(name), cstr(target), amin, 'None' if amax is None else '(Some %d%%Z)' % amax, gs, cstr(text)))
     w('[\n' + ';\n'.join(rows) + '\n].')
     w('')
+    w('(* number of @param tags in each public method\'s docstring: the documented signature *)')
+    w('Definition doc_param_count : list (string * Z) :=\n  [%s].' % ';\n   '.join(
+        '(%s, %s)' % (cstr(n), vlib.zlit(k)) for n, k in d['docparams']))
     w('Definition faults_table : list (string * Z) :=\n  [%s].' % '; '.join(
         '(%s, %s)' % (cstr(n), vlib.zlit(v)) for n, v in d['faults']))
     w('Definition moods_table : list (string * Z) :=\n  [%s].' % '; '.join(
